@@ -360,9 +360,9 @@ func newBattleCfg(c simCfg, gc gmars.SimulatorConfig, withReports bool) (b *batt
 	}
 	b = &battle{cfg: c, sim: sim, full: true}
 	b.prev = make([]ins, c.M)
+	b.lis = &listener{sim: sim, m: c.M, snap: withReports}
+	sim.AddReporter(b.lis)
 	if withReports {
-		b.lis = &listener{sim: sim, m: c.M, snap: true}
-		sim.AddReporter(b.lis)
 		b.rec = gmars.NewStateRecorder(sim)
 		sim.AddReporter(b.rec)
 	}
